@@ -17,6 +17,7 @@ INST_MAX_NS = (IMAX + 1) * NPD - 1
 META = {
     "property": "C03",
     "proof_modules": ["PyodaProofs.C03"],
+    "drivers": ["drv_elapsed"],
     "theorems": [
         "Pyoda.C03.fromUnits_exact", "Pyoda.C03.fromUnits_raises_iff", "Pyoda.C03.fromNanoseconds_exact",
         "Pyoda.C03.fromNanoseconds_raises_iff", "Pyoda.C03.fromTicks_exact", "Pyoda.C03.fromTicks_raises_iff",
